@@ -9,7 +9,7 @@ from symq.nd import SymNd, symbolic_mode
 
 qenv.install_all()
 
-DIMS = {"Q1": 2, "T1": 3, "Q2": 4, "QT": 6, "TQ": 6, "Q3": 8, "T2": 9, "Q1u": 2, "Q1h": 2, "Q1x": 2, "Q4": 16}
+DIMS = {"Q1": 2, "T1": 3, "Q2": 4, "QT": 6, "TQ": 6, "Q3": 8, "T2": 9, "Q1u": 2, "Q1h": 2, "Q1x": 2, "Q2x": 4, "Q4": 16}
 
 
 class FnOb(Ob):
